@@ -17,8 +17,9 @@ package sm2
 
 //@ func (*sm2Curve).pointFromAffine property C13
 //@   requires curve != nil && curve.curve != nil && curve.newPoint != nil && x != nil && y != nil
-//@   ensures err == nil ==> p != nil && fresh(p)
+//@   ensures err == nil ==> p != nil
 //@   fnspec newPoint: std:pointCreator
+//@   freshornil p
 //@   modifies nothing
 
 //@ func parseCiphertextASN1 property C13,C07
@@ -44,6 +45,7 @@ package sm2
 //@   modifies everything
 
 //@ func decryptSM2EC property C13,C07
+//@   coverreturns
 //@   nullable opts
 //@   requires c != nil && c.curve != nil && c.newPoint != nil && priv != nil && len(ciphertext) <= 4000000000
 //@   assert before call ConstantTimeAllZero#1: sameslice(arg0, msg)
@@ -64,6 +66,7 @@ package sm2
 //@   modifies nothing
 
 //@ func rawDecrypt property C13,C07
+//@   coverreturns
 //@   requires priv != nil && len(c2) <= 4000000000
 //@   assert before call ConstantTimeAllZero#1: sameslice(arg0, msg)
 //@   heapnonnil
@@ -103,7 +106,8 @@ package sm2
 //@   modifies nothing
 
 //@ func encryptSM2EC property C07
-//@   requires c != nil && c.curve != nil && c.newPoint != nil && pub != nil && opts != nil && len(msg) <= 4000000000
+//@   coverreturns
+//@   requires c != nil && c.curve != nil && c.newPoint != nil && c.N != nil && pub != nil && opts != nil && len(msg) <= 4000000000
 //@   fnspec newPoint: std:pointCreator
 //@   loop 1 let S := state()
 //@   loop 1 invariant unchanged(S, *Q) && 0 <= retryCount && retryCount <= 100
@@ -133,7 +137,6 @@ package sm2
 // point is not the point at infinity, and r == (e + x1) mod n with (x1, y1) = [s]G + [t]P - the
 // GB/T 32918.2 verification equation.
 //@ func parseSignature property C06,C13
-//@   ensures err == nil ==> len(r) <= len(sig) && len(s) <= len(sig)
 //@   modifies nothing
 
 //@ func hashToNat trusted
@@ -142,6 +145,7 @@ package sm2
 //@   modifies *e, ghost(natv, e)
 
 //@ func verifySM2EC property C06,C13
+//@   coverreturns
 //@   requires c != nil && c.curve != nil && c.newPoint != nil && c.N != nil && pub != nil && pub.X != nil && pub.Y != nil && MODV(objof(c.N)) > 1
 //@   fnspec newPoint: std:pointCreator
 //@   let N := MODV(objof(c.N))
@@ -156,6 +160,7 @@ package sm2
 // the cached inverse: whatever the history of earlier calls (sync.Once already spent or not), an
 // error or a non-nil value comes back
 //@ func (*PrivateKey).inverseOfPrivateKeyPlus1 property C06
+//@   coverreturns
 //@   requires priv != nil && priv.D != nil && c != nil && c.N != nil
 //@   ensures err == nil ==> result0 != nil
 //@   heapnonnil
@@ -165,6 +170,7 @@ package sm2
 // r = (e + x1) mod n and s = (1+d)^-1 * (k - r*d) mod n for the k and (x1, y1) = [k]G of the last
 // attempt, with r != 0, r + k != 0 (mod n) and s != 0 - the retry conditions of steps A5 and A6.
 //@ func signSM2EC property C06
+//@   coverreturns
 //@   requires c != nil && c.N != nil && priv != nil && priv.D != nil && MODV(objof(c.N)) > 1
 //@   let N := MODV(objof(c.N))
 //@   bind after call inverseOfPrivateKeyPlus1#1: DINV := ghost(natv, result0)
